@@ -291,6 +291,7 @@ class Interp(object):
     def new_obj(self, cls_qual, **attrs):
         o = Obj(self.model.cls(cls_qual))
         o.attrs.update(attrs)
+        o.partial = True       # built without running __init__: what the constructor would have stored is unknown, not absent
         return o
 
     def construct(self, cls_qual, *args, **kwargs):
@@ -1279,6 +1280,8 @@ class Interp(object):
                 raise Undecidable('special attribute %s of an object' % name)      # every object has these: a limit of the model
             if getattr(cls, 'opaque_bases', False):
                 raise Undecidable('attribute %s of a %s: the class has a base that is computed at run time' % (name, cls.name))
+            if getattr(o, 'partial', False):
+                raise Undecidable('attribute %s of a %s that the check built without running its constructor' % (name, cls.name))
             raise PyRaise('AttributeError', '%s.%s' % (cls.name, name))
         if isinstance(o, Opaque):
             if name in o.attrs:
